@@ -354,83 +354,108 @@ def dirOnly : Res → Res
 def changedKeys (fs fs1 : FS) : List Path :=
   (fs1.ents.filter (fun e => fs.lookup e.1 ≠ some e.2)).map (·.1)
 
+def failR (fs : FS) (e : Err) : Result := ⟨fs, some e, [], []⟩
+
+/-- download: ValidateDownloadMetadata (after validatePath) + ReadFileForDownload. -/
+def opDownload (nfc : Bytes → Bytes) (fu : Nat) (c : Cfg) (fs : FS) (path : Bytes) : Result :=
+  let p := compsOf (clean path)
+  -- ValidateDownloadMetadata works on the path AS SENT (the kernel resolves its ".." physically);
+  -- validateSymlinkTarget looks only at a symbolic link as the FINAL component
+  let praw := compsOf path
+  -- a trailing "/" or "/." makes the kernel resolve the final component and demand a directory
+  let tr := trailingDir path
+  let lst := if tr then dirOnly (stat fs fu praw) else lstat fs fu praw
+  let stt := if tr then dirOnly (stat fs fu praw) else stat fs fu praw
+  let symOK : Bool :=
+    match lst with
+    | .found _ (.sym _) =>
+      (match stat fs fu praw with
+       | .found q _ => validatePath nfc c (strOfPath q) == .ok
+       | _ => false)
+    | _ => true
+  if !symOK then failR fs .symlinkTarget else
+  match stt with
+  | .found _ _ =>
+    -- ReadFileForDownload cleans the path lexically and opens it
+    (match stat fs fu p with
+     | .found q _ => ⟨fs, none, [q], []⟩
+     | _ => failR fs .notFound)
+  | _ => failR fs .notFound
+
+/-- upload of a single file: WriteUploadedFile (MkdirAll of the parent, open with O_TRUNC). -/
+def opUpload (fu : Nat) (fs : FS) (path : Bytes) (content : Nat) : Result :=
+  let p := compsOf (clean path)
+  match mkdirAll fs fu p.dropLast with
+  | (fs1, false) => ⟨fs1, some .io, changedKeys fs fs1, []⟩
+  | (fs1, true) =>
+    match stat fs1 fu p with
+    | .found q (.file _) => ⟨(openTrunc fs1 fu p content).1, none, changedKeys fs fs1 ++ aliases fs1 q, []⟩
+    | .missing par n => ⟨(openTrunc fs1 fu p content).1, none, changedKeys fs fs1 ++ [par ++ [n]], []⟩
+    | _ => ⟨fs1, some .io, changedKeys fs fs1, []⟩
+
+def opList (fu : Nat) (fs : FS) (path : Bytes) : Result :=
+  match stat fs fu (compsOf (clean path)) with
+  | .found q .dir => ⟨fs, none, [q], children fs q⟩
+  | .found _ _ => failR fs .notDir
+  | _ => failR fs .notFound
+
+def opStat (fu : Nat) (fs : FS) (path : Bytes) : Result :=
+  let p := compsOf (clean path)
+  match lstat fs fu p with
+  | .found q (.sym _) =>
+    (match stat fs fu p with
+     | .found t _ => ⟨fs, none, [q, t], []⟩
+     | _ => ⟨fs, none, [q], []⟩)
+  | .found q _ => ⟨fs, none, [q], []⟩
+  | _ => failR fs .notFound
+
+def opChmod (fu : Nat) (fs : FS) (path : Bytes) : Result :=
+  match stat fs fu (compsOf (clean path)) with
+  | .found q _ => ⟨fs, none, aliases fs q, []⟩
+  | _ => failR fs .io
+
+def opDelete (fu : Nat) (fs : FS) (path : Bytes) (recursive : Bool) : Result :=
+  let p := compsOf (clean path)
+  match lstat fs fu p with
+  | .found q k =>
+    -- entry.IsDir: of the link's target when the final component is a symbolic link
+    let tgt : Option (Path × Kind) :=
+      match k with
+      | .sym _ => (match stat fs fu p with | .found t k' => some (t, k') | _ => none)
+      | _ => some (q, k)
+    let isDir := match tgt with | some (_, .dir) => true | _ => false
+    let listed : List Path := match tgt with | some (t, .dir) => [t] | _ => []
+    let nonEmpty := match tgt with | some (t, .dir) => !(children fs t).isEmpty | _ => false
+    if isDir && nonEmpty && !recursive then ⟨fs, some .notEmpty, listed, []⟩
+    else if recursive && isDir then
+      let (fs1, gone) := removeAll fs fu p
+      ⟨fs1, none, listed ++ gone, []⟩
+    else
+      let fs1 := remove fs fu p
+      if fs1.lookup q = fs.lookup q ∧ q ≠ [] then ⟨fs, some .io, listed, []⟩ else ⟨fs1, none, listed ++ [q], []⟩
+  | _ => failR fs .notFound
+
+/-- the operation proper, once the request passed `validatePath` -/
+def dispatch (nfc : Bytes → Bytes) (fu : Nat) (c : Cfg) (fs : FS) (op : Op) (path : Bytes) : Result :=
+  match op with
+  | .download => opDownload nfc fu c fs path
+  | .upload content => opUpload fu fs path content
+  | .list => opList fu fs path
+  | .stat => opStat fu fs path
+  | .chmod => opChmod fu fs path
+  | .delete recursive => opDelete fu fs path recursive
+
+def isBrowse : Op → Bool
+  | .download => false
+  | .upload _ => false
+  | _ => true
+
 /-- One request.  `path` is the path string of the request. -/
 def runOp (nfc : Bytes → Bytes) (fu : Nat) (c : Cfg) (fs : FS) (op : Op) (path : Bytes) : Result :=
-  let fail (e : Err) : Result := ⟨fs, some e, [], []⟩
-  if !c.enabled then fail .disabled else
-  let browse := match op with | .download => false | .upload _ => false | _ => true
-  if browse && path.isEmpty then fail .pathRequired else
+  if !c.enabled then failR fs .disabled else
+  if isBrowse op && path.isEmpty then failR fs .pathRequired else
   match validatePath nfc c path with
-  | .ok =>
-    let p := compsOf (clean path)
-    match op with
-    | .download =>
-      -- ValidateDownloadMetadata works on the path AS SENT (the kernel resolves its ".." physically);
-      -- validateSymlinkTarget looks only at a symbolic link as the FINAL component
-      let praw := compsOf path
-      -- a trailing "/" or "/." makes the kernel resolve the final component and demand a directory
-      let tr := trailingDir path
-      let lst := if tr then dirOnly (stat fs fu praw) else lstat fs fu praw
-      let stt := if tr then dirOnly (stat fs fu praw) else stat fs fu praw
-      let symOK : Bool :=
-        match lst with
-        | .found _ (.sym _) =>
-          (match stat fs fu praw with
-           | .found q _ => validatePath nfc c (strOfPath q) == .ok
-           | _ => false)
-        | _ => true
-      if !symOK then fail .symlinkTarget else
-      match stt with
-      | .found _ _ =>
-        -- ReadFileForDownload cleans the path lexically and opens it
-        (match stat fs fu p with
-         | .found q _ => ⟨fs, none, [q], []⟩
-         | _ => fail .notFound)
-      | _ => fail .notFound
-    | .upload content =>
-      match mkdirAll fs fu p.dropLast with
-      | (fs1, false) => ⟨fs1, some .io, changedKeys fs fs1, []⟩
-      | (fs1, true) =>
-        match stat fs1 fu p with
-        | .found q (.file _) => ⟨(openTrunc fs1 fu p content).1, none, changedKeys fs fs1 ++ aliases fs1 q, []⟩
-        | .missing par n => ⟨(openTrunc fs1 fu p content).1, none, changedKeys fs fs1 ++ [par ++ [n]], []⟩
-        | _ => ⟨fs1, some .io, changedKeys fs fs1, []⟩
-    | .list =>
-      match stat fs fu p with
-      | .found q .dir => ⟨fs, none, [q], children fs q⟩
-      | .found _ _ => fail .notDir
-      | _ => fail .notFound
-    | .stat =>
-      match lstat fs fu p with
-      | .found q (.sym _) =>
-        (match stat fs fu p with
-         | .found t _ => ⟨fs, none, [q, t], []⟩
-         | _ => ⟨fs, none, [q], []⟩)
-      | .found q _ => ⟨fs, none, [q], []⟩
-      | _ => fail .notFound
-    | .chmod =>
-      match stat fs fu p with
-      | .found q _ => ⟨fs, none, aliases fs q, []⟩
-      | _ => fail .io
-    | .delete recursive =>
-      match lstat fs fu p with
-      | .found q k =>
-        -- entry.IsDir: of the link's target when the final component is a symbolic link
-        let tgt : Option (Path × Kind) :=
-          match k with
-          | .sym _ => (match stat fs fu p with | .found t k' => some (t, k') | _ => none)
-          | _ => some (q, k)
-        let isDir := match tgt with | some (_, .dir) => true | _ => false
-        let listed : List Path := match tgt with | some (t, .dir) => [t] | _ => []
-        let nonEmpty := match tgt with | some (t, .dir) => !(children fs t).isEmpty | _ => false
-        if isDir && nonEmpty && !recursive then ⟨fs, some .notEmpty, listed, []⟩
-        else if recursive && isDir then
-          let (fs1, gone) := removeAll fs fu p
-          ⟨fs1, none, listed ++ gone, []⟩
-        else
-          let fs1 := remove fs fu p
-          if fs1.lookup q = fs.lookup q ∧ q ≠ [] then ⟨fs, some .io, listed, []⟩ else ⟨fs1, none, listed ++ [q], []⟩
-      | _ => fail .notFound
-  | v => fail (.invalid v)
+  | .ok => dispatch nfc fu c fs op path
+  | v => failR fs (.invalid v)
 
 end MM.C26
